@@ -38,7 +38,7 @@ static void do_op(Cmd *c) {
             conf.cmp = pick_cmp(which);
             conf.mem_alloc = conf_malloc; conf.mem_calloc = conf_calloc; conf.mem_free = conf_free;
             st = cc_treeset_new_conf(&conf, &ts);
-        } else { default_mode = 1; st = cc_treeset_new(pick_cmp(which), &ts); }
+        } else { st = cc_treeset_new(pick_cmp(which), &ts); }
         if (st != CC_OK) ts = NULL;
         o_stat(st); o(" ");
     } else if (!ts) { o("st=- nosession"); o_sep(); o("-"); return;
